@@ -44,6 +44,12 @@ def gen(rng):
     for lit in forced:
         a = rng.choice(rules['start'])
         a.insert(rng.randint(0, len(a)), ('lit', lit))
+    # a large ranged repetition (compiled through factored helper rules): `"c" x~n..m` as one more alternative of start
+    big = None
+    if rng.random() < 0.2:
+        n_ = rng.randint(0, 12); span = rng.choice([50, 64, 75, 100, 51, 60, 7, 49])
+        big = (rng.choice(['a', 'ab', '+']), n_, n_ + span - 1)
+        rules['start'].append([('lit', 'c'), ('rep',) + big])
     # unreachable chains d0 -> d1 -> ... (each referenced only by its predecessor), holding keywords that collide with live regexps
     dead = []
     for c in range(rng.choice([0, 1, 1, 2])):
@@ -55,7 +61,7 @@ def gen(rng):
             rules[n] = [body] + ([[('lit', rng.choice(LITS))]] if rng.random() < 0.3 else [])
         dead += names
     ign = rng.choice(IGNORES) if rng.random() < 0.5 else None
-    return {'rules': rules, 'named': named, 'ignore': ign}
+    return {'rules': rules, 'named': named, 'ignore': ign, 'big': big}
 
 
 def _render(rules, named, ign, lit_name=None):
@@ -64,6 +70,10 @@ def _render(rules, named, ign, lit_name=None):
         def s(x):
             if x[0] == 'lit':
                 return lit_name[x[1]] if lit_name is not None else '"%s"' % x[1]
+            if x[0] == 'rep':
+                if lit_name is None:
+                    return '"%s"~%d..%d' % (x[1], x[2], x[3])
+                return '_bigrep'          # as meant: every count written out (rule _bigrep below)
             return x[1]
         out.append('%s: %s' % (nt, ' | '.join(' '.join(s(x) for x in a) for a in alts)))
     for k, v in named.items():
@@ -88,7 +98,7 @@ def as_meant(ast):
                     live.add(x[1]); todo.append(x[1])
     lrules = {n: a for n, a in rules.items() if n in live}
     used_t = {x[1] for a in lrules.values() for alt in a for x in alt if x[0] == 'T'}
-    lits = list(dict.fromkeys(x[1] for a in lrules.values() for alt in a for x in alt if x[0] == 'lit'))
+    lits = list(dict.fromkeys(x[1] for a in lrules.values() for alt in a for x in alt if x[0] in ('lit', 'rep')))
     by_string = {v[1:-1]: k for k, v in named.items() if v.startswith('"')}       # "If already defined, use the user-defined terminal name"
     lit_name, extra = {}, {}
     for i, s_ in enumerate(lits):
@@ -98,7 +108,11 @@ def as_meant(ast):
             lit_name[s_] = '_L%d' % i; extra['_L%d' % i] = '"%s"' % s_
     lnamed = {k: v for k, v in named.items() if k in used_t}
     lnamed.update(extra)
-    return _render(lrules, lnamed, ast['ignore'], lit_name)
+    txt = _render(lrules, lnamed, ast['ignore'], lit_name)
+    if ast.get('big'):
+        item, lo, hi = ast['big']
+        txt = '_bigrep: %s\n' % ' | '.join(' '.join([lit_name[item]] * k) for k in range(lo, hi + 1)) + txt
+    return txt
 
 
 def _case(seed):
@@ -135,6 +149,9 @@ def _case(seed):
                         k = rng.randrange(len(s)); texts.append(s[:k] + rng.choice('ab+: ') + s[k + 1:])
             al = list('aabbc+:-. ')
             texts += [''.join(rng.choice(al) for _ in range(rng.randint(0, 6))) for _ in range(4)]
+            if ast.get('big'):
+                item, lo, hi = ast['big']
+                texts += ['c' + item * k for k in sorted({max(lo - 1, 0), lo, lo + 9, lo + 10, (lo + hi) // 2, hi - 1, hi, hi + 1})]
             texts = list(dict.fromkeys(texts))
         for t in texts:
             r = []
